@@ -347,9 +347,9 @@ theorem identity_roundtrip (m : Mode) (p : Prov) (hcs : 2 ≤ p.cs) (v pc rev se
     · omega
     · congr 1 <;> omega
 
-/-- **EEPROM size**, PARTIAL (size word below 511, i.e. EEPROMs up to 511 Kbit... 64 KiB − 128 B): the size in
-    bytes is `(word + 1) * 128`. For larger devices see `size_counterexample`. -/
-theorem size_roundtrip_partial (m : Mode) (p : Prov) (hcs : 2 ≤ p.cs) (w : Nat) (hw : w < 511)
+/-- **EEPROM size**: the size in bytes is `(word + 1) * 128` for every value of the size word (1 Kbit up to the
+    register maximum; the property's 4 Mbit is word 4095). -/
+theorem size_roundtrip (m : Mode) (p : Prov) (hcs : 2 ≤ p.cs) (w : Nat) (hw : w < 65536)
     (hh : Holds p.rd 124 (le16 w)) :
     (size m p).1 = .ok ((w + 1) * 128) := by
   unfold size
@@ -362,17 +362,12 @@ theorem size_roundtrip_partial (m : Mode) (p : Prov) (hcs : 2 ≤ p.cs) (w : Nat
   unfold Holds at hh
   simp only [le16_length] at hh
   simp only
-  rw [hh, rd16_le16 w (by omega), add16_ok _ _ _ _ (by omega)]
-  simp only [bind_ret]
-  rw [mul16_ok _ _ _ _ (by omega)]
+  rw [hh, rd16_le16 w hw]
   rfl
 
-/-- FALSE from 512 Kbit up (the property's sizes go to 4 Mbit): size word 4095 (4 Mbit = 524288 bytes) is
-    reported as 0 bytes by wrapping builds and panics in checked builds. -/
-theorem size_counterexample :
-    let p : Prov := ⟨imgRd (List.replicate 124 0 ++ le16 4095) 255, 8⟩
-    (size .wrapping p).1 = .ok 0 ∧ (size .checked p).1 = .panic "size:mul" := by
-  decide
+/-- 4 Mbit (size word 4095) is 524288 bytes in both build modes (was reported as 0 / panicked before the fix). -/
+example : let p : Prov := ⟨imgRd (List.replicate 124 0 ++ le16 4095) 255, 8⟩
+    (size .wrapping p).1 = .ok 524288 ∧ (size .checked p).1 = .ok 524288 := by decide
 
 /-- **Mailbox settings** (words 0x18..0x1C): offsets, sizes and the supported-protocol bits as stored. -/
 theorem mailbox_roundtrip (m : Mode) (p : Prov) (hcs : 2 ≤ p.cs) (ro rs so ss pr hi : Nat)
